@@ -11,6 +11,7 @@ RULE = ('every operation of a history is executed on the real Mesh and, in lock-
         'indices, unique vertex coordinates, gmsh() == leaves). Exhaustive part: all bisection sequences to the '
         'depth bound from 16 small initial meshes, states deduplicated by refinement-tree signature; a case is one '
         'checked transition, distinct = distinct (initial mesh, tree signature) states plus distinct random histories')
+RULE += ' ' + 'Also three chains of 1060 bisections towards t = 0 / x = 0 (leaf sizes down to 2^-1060; exact-comparison oracle: area, <= 2 neighbours per edge, no exception).'
 ASSUMPTIONS = [
     'the reference model RefMesh (stbemv/oracles/refmesh.py) states the intended semantics: least set of bisections closed under "edge neighbour coarser in that axis"',
     'Doerfler/grading steps inside random histories are judged here only for tiling, bookkeeping and 1-irregularity; their minimality is C06/C19',
@@ -18,7 +19,7 @@ ASSUMPTIONS = [
 ]
 REQUIRED = {
     'quick': ['op:with-closure', 'op:no-closure', 'op:bisect', 'op:refine-both', 'op:uniform', 'op:uniform-space',
-              'op:dorfler', 'op:grading', 'random:glued', 'random:open', 'source:repo-test-suite', 'deep:seam-last-top', 'deep:seam-first-top', 'deep:interior-top'],
+              'op:dorfler', 'op:grading', 'random:glued', 'random:open', 'source:repo-test-suite', 'deep:seam-last-top', 'deep:seam-first-top', 'deep:interior-top', 'deep:1000-ancestors:time-to-0', 'deep:1000-ancestors:space-to-0'],
 }
 REQUIRED['thorough'] = REQUIRED['quick']
 TIMEOUT = {'quick': 900, 'thorough': 7200}
